@@ -551,8 +551,27 @@ func ConsistencyC04(prefix string, p *workflow.Plan, res *vprop.Result) bool {
 		if checksStatus(p.DeferredChecks) == workflow.Failed {
 			legal[workflow.FRDeferredCheck] = true
 		}
+		// A block "actually failed" when it has a cause of its own: more failed sequences than tolerated, or one of
+		// its own check groups failed. A block that is Failed only because a plan-level continuous check failed while it
+		// was running (the engine marks the aborted block Failed) did not fail itself: the stage that failed is the
+		// continuous check.
 		for _, b := range p.Blocks {
-			if status(b.State) == workflow.Failed {
+			if status(b.State) != workflow.Failed {
+				continue
+			}
+			nFailed := 0
+			for _, q := range b.Sequences {
+				if status(q.State) == workflow.Failed {
+					nFailed++
+				}
+			}
+			own := b.ToleratedFailures >= 0 && nFailed > b.ToleratedFailures
+			for gi := 1; gi < 5; gi++ {
+				if checksStatus(BlockGroup(b, gi)) == workflow.Failed {
+					own = true
+				}
+			}
+			if own || checksStatus(p.ContChecks) != workflow.Failed {
 				legal[workflow.FRBlock] = true
 			}
 		}
